@@ -80,12 +80,17 @@ impl Prop for C07 {
 
     fn profiles(tier: Tier) -> Vec<Profile> {
         match tier {
-            Tier::Quick => vec![prof("const_single", 100_000), prof("const_batch", 100_000), prof("sampled", 60_000)],
-            Tier::Thorough => vec![prof("const_single", 800_000), prof("const_batch", 800_000), prof("sampled", 500_000)],
+            Tier::Quick => vec![prof("const_single", 100_000), prof("const_batch", 100_000), prof("sampled", 60_000), prof("capi", 8_000)],
+            Tier::Thorough => vec![prof("const_single", 800_000), prof("const_batch", 800_000), prof("sampled", 500_000), prof("capi", 100_000)],
         }
     }
 
     fn strategy(profile: &str) -> BoxedStrategy<FwCase> {
+        if profile == "capi" {
+            // limits for C callers: completions for the right, other and unknown ids through the C API
+            let hp = HistParams { min_calls: 3, max_calls: 60, max_batch: 5, ev_weights: [1, 1, 1, 3, 8, 1, 6, 2, 6, 2], w_unknown_id: 3, ..HistParams::default() };
+            return crate::props::capi_case(1..=3, |mp| { mp.max_states = 3; mp.p_action = 0.9; mp.p_limit = 0.9; mp.budgets = BudgetProfile::Unlimited; }, &hp);
+        }
         let mut mp = MachineParams {
             max_states: 3,
             p_action: 0.9,
@@ -128,6 +133,9 @@ impl Prop for C07 {
         let machines = build_machines(&case.machines)
             .unwrap_or_else(|e| panic!("generator produced a machine that Machine::new rejects: {e}"));
         let n = machines.len();
+        if case.seed == crate::props::CAPI_MARK {
+            crate::props::capi_pass(case, obs)?;
+        }
         let mut run = FwRun::new(case, machines, Some(50_000_000))
             .map_err(|e| Failure { signature: "framework-new-rejects-validated-machines".into(), detail: e })?;
         let mut mons: Vec<Mon> = (0..n)
